@@ -4,6 +4,7 @@ import os
 import shutil
 import struct
 import subprocess
+import tarfile
 
 import common
 import gen
@@ -265,7 +266,13 @@ def run(tier, seed, build=True):
             # containers
             base_out = common.run_s4(["--color", "never", "-t", "+00:00", fname], cwd=work, timeout=120).out
             data = open(path, "rb").read()
-            conts = {fname + ".gz": gen.gz(data, level=1), fname + ".xz": gen.xz(data, 0), "arch.tar": gen.tar([("j/" + fname, data)])}
+            conts = {fname + ".gz": gen.gz(data, level=1), fname + ".xz": gen.xz(data, 0), "arch.tar": gen.tar([("j/" + fname, data)]),
+                     # a member path longer than the 100-byte name field of a tar header
+                     "long-gnu.tar": gen.tar([("var/log/journal/" + "0123456789abcdef" * 7 + "/" + fname, data)], fmt=tarfile.GNU_FORMAT),
+                     "long-pax.tar": gen.tar([("var/log/journal/" + "0123456789abcdef" * 7 + "/" + fname, data)], fmt=tarfile.PAX_FORMAT)}
+            if len(data) < 10000000:
+                # lz4 blocks whose decoded size is not a multiple of 64 KiB
+                conts["odd-" + fname + ".lz4"] = gen.lz4_frame(data, 50000, content_size=False)
             if tier == "thorough" or len(data) < 10000000:
                 conts[fname + ".bz2"] = gen.bz(data, 1)
                 conts[fname + ".lz4"] = gen.lz4_frame(data, 65536, content_size=True)
